@@ -1604,11 +1604,14 @@ pub fn c12(tier: Tier) -> i32 {
     let mut res = run_cases(&ctx, 1, n, |rng, _i, st| c12_case(rng, st));
     let n2 = ctx.scale(10_000, 500_000);
     res.merge(run_cases(&ctx, 2, n2, |rng, _i, st| c12_reuse_case(rng, st)));
+    let n3 = ctx.scale(32, 400);
+    res.merge(run_cases(&ctx, 3, n3, |rng, _i, st| crate::checks_scale::c12_work_sweep_case(rng, st)));
     let report = Report::new(
-        "stream 2: one buffer refilled in place with 2-4 equally long contents and scanned by successive iterators of one Scanner (random histories, some ending mid-scan), each compared with its solo replay on a fresh uncached scanner over a separate copy. stream 1: 2-5 iterators (one case in 25: 9-70) over 1-3 inputs created lazily from one Scanner or from two build() results of one configuration (shared cached compilation), random interleavings of all iterator operations (next, peek_n, advance_to, set_offset, set_mode, position, current_mode), early drops, Scanner::set_mode between and during iterations. Oracle: the projection of the interleaved history onto each iterator must equal the solo replay of that projection on a fresh uncached scanner (all outputs compared). Distinct by hash of (configuration, inputs, plans, schedule).",
+        "stream 3: between two scans of one probe text the same scanner, another scanner or another iterator (while the probing iterator is alive) scans W characters (unmatched / one long token / W short tokens), W swept over +-70 around 128, 256, 512, 16384, 21845, 32768 and 65536; the probe must tokenize the same every time. stream 2: one buffer refilled in place with 2-4 equally long contents and scanned by successive iterators of one Scanner (random histories, some ending mid-scan), each compared with its solo replay on a fresh uncached scanner over a separate copy. stream 1: 2-5 iterators (one case in 25: 9-70) over 1-3 inputs created lazily from one Scanner or from two build() results of one configuration (shared cached compilation), random interleavings of all iterator operations (next, peek_n, advance_to, set_offset, set_mode, position, current_mode), early drops, Scanner::set_mode between and during iterations. Oracle: the projection of the interleaved history onto each iterator must equal the solo replay of that projection on a fresh uncached scanner (all outputs compared). Distinct by hash of (configuration, inputs, plans, schedule).",
     )
     .floor("step_with_two_or_more_live_iterators", 50_000)
     .floor("interleavings_with_more_than_8_iterators", 200)
+    .floor("probe_scans_after_swept_amount_of_work", 20_000)
     .floor("step_with_live_iterators_in_different_modes", 10_000)
     .floor("iterator_dropped_mid_scan", 2000)
     .floor("scanner_set_mode_during_iterations", 2000)
